@@ -160,7 +160,7 @@ def color_val(c):
     return getattr(c, "value", None)
 
 
-def observe_doc(se, svg):
+def observe_doc(se, svg, keep_path=False, rendered_stroke=False):
     """Read-only observation of a parsed tree: one record per rendered element, in document order.
 
     Shape: (n, class, geometry of abs(Path(copy)), fill, stroke, stroke_width, id)
@@ -180,9 +180,19 @@ def observe_doc(se, svg):
             except Exception as ex:  # observation never raises; the oracle sees the marker
                 geom = [("error", [type(ex).__name__])]
             sw = e.stroke_width
+            if rendered_stroke:
+                # the width actually drawn: a lazily transformed shape scales its stroke with its matrix
+                try:
+                    sw = e.implicit_stroke_width
+                except Exception:
+                    sw = e.stroke_width
             if isinstance(sw, se.Length):
                 sw = ("Len", sw.amount, sw.units)
-            out.append({"n": n, "cls": cls, "geom": geom, "fill": color_val(e.fill), "stroke": color_val(e.stroke), "sw": sw, "id": e.id})
+            rec = {"n": n, "cls": cls, "geom": geom, "fill": color_val(e.fill), "stroke": color_val(e.stroke), "sw": sw, "id": e.id}
+            if keep_path and geom and geom[0][0] != "error":
+                rec["_path"] = p
+                rec["_elem"] = e
+            out.append(rec)
         elif isinstance(e, se.Text):
             t = e.transform
             out.append({"n": n, "cls": cls, "text": e.text, "xf": (t.a, t.b, t.c, t.d, t.e, t.f) if t is not None else None, "x": e.x, "y": e.y, "fill": color_val(e.fill), "stroke": color_val(e.stroke), "id": e.id})
@@ -198,7 +208,7 @@ def records_equal(a, b, rel=1e-9, geom_abs=None):
     if a["cls"] != b["cls"]:
         return False, "class %s != %s" % (a["cls"], b["cls"])
     for k in sorted(set(a) | set(b)):
-        if k in ("geom", "cls"):
+        if k in ("geom", "cls") or k.startswith("_"):
             continue
         va, vb = a.get(k), b.get(k)
         if not close_val(va, vb, rel, 0.0):
